@@ -11,3 +11,5 @@ func raceRelease(p unsafe.Pointer)      {}
 func raceReleaseMerge(p unsafe.Pointer) {}
 func raceDisable()                      {}
 func raceEnable()                       {}
+func raceRead(p unsafe.Pointer)         {}
+func raceWrite(p unsafe.Pointer)        {}
